@@ -240,7 +240,22 @@ def r4_nesting(ctx):
     r.check(len(pushes) == 1, "push", "one loop-state push", "%d loop-state pushes" % len(pushes))
     LAST = "core::slice::<impl [T]>::last(^self.loop_state)"
     atoms = [a for a in q.cmp_atoms(st) if ("try(%s).end" % LAST) in a[1] and "Loop).1" in a[1]]
-    r.check(len(atoms) == 1, "check", "the new end is compared with the enclosing loop's end", "nesting comparisons: %s" % [a[1][:100] for a in atoms])
+    if len(atoms) == 1:
+        r.ok("check", "the new end is compared with the enclosing loop's end")
+    else:
+        # "no nesting check" needs the demonstrable absence of any comparison with a loop state's `end` from the instruction closure and everything nested in it
+        # (helpers that are not in the baseline inventory are spliced in); a comparison that is there but spelled differently (through a newtype around the loop
+        # stack, `is_some_and`, a `match` guard) is not read: undecided
+        step_ = ctx.prog.body(EX + "step")
+        near = [c_ for n_ in ([st] + [x for x in ctx.prog.all_nested(step_ if step_ is not None else st) if x is not st]) for _e, c_, _b in q.cmp_atoms(n_) if ".end" in c_]
+        wrong = [c_ for c_ in near if "Loop).1" in c_ and "loop_state" in c_ and "last(" not in c_ and any(w_ in c_ for w_ in ("first(", "get(", "index(", "nth("))]
+        if wrong:
+            # positive: the new loop's end IS compared with a loop state's end — of another frame than the innermost one
+            r.violation("check", "the new loop's end is compared with the end of a loop state that is not the innermost enclosing one (%s): a loop nested properly in its parent but overrunning an outer frame is refused, or the reverse" % wrong[0][:140])
+        elif near or len(atoms) > 1:
+            r.undecided("check", "no comparison of the form `new end ⋗ last(loop_state).end` was read, but the instruction code compares loop ends (%s): not decided" % ([x[:100] for x in near[:2]] or [a[1][:100] for a in atoms]))
+        else:
+            r.violation("check", "no comparison with the enclosing loop's end anywhere in Executor::step: improperly nested loops are not refused")
     if pushes and atoms:
         e, c, bi = atoms[0]
         op, L, R = q.as_cmp(e)
